@@ -906,25 +906,31 @@ impl<T> Sender<T> {
             Ok(())
         } else {
             // send directly to the waitlist
-            let mut d = data.take().unwrap();
-            let sig = Signal::new_sync(KanalPtr::new_from(&mut d));
+            // Safety: MaybeUninit is acting like a ManuallyDrop, once a
+            // receiver has taken the data it must not be dropped here
+            let mut d = MaybeUninit::new(data.take().unwrap());
+            let sig = Signal::new_sync(KanalPtr::new_from(d.as_mut_ptr()));
             internal.push_send(sig.get_terminator());
             drop(internal);
             if !sig.wait_timeout(deadline) {
                 if sig.is_terminated() {
-                    *data = Some(d);
+                    // Safety: data failed to move, give it back to the caller
+                    *data = Some(unsafe { d.assume_init() });
                     return Err(SendErrorTimeout::Closed);
                 }
                 {
                     let mut internal = acquire_internal(&self.internal);
                     if internal.cancel_send_signal(&sig) {
-                        *data = Some(d);
+                        drop(internal);
+                        // Safety: data failed to move, give it back to the caller
+                        *data = Some(unsafe { d.assume_init() });
                         return Err(SendErrorTimeout::Timeout);
                     }
                 }
                 // removing receive failed to wait for the signal response
                 if !sig.wait() {
-                    *data = Some(d);
+                    // Safety: data failed to move, give it back to the caller
+                    *data = Some(unsafe { d.assume_init() });
                     return Err(SendErrorTimeout::Closed);
                 }
             }
